@@ -383,6 +383,8 @@ def run(ctx) -> list[Inst]:
     insts += _extensions(ctx)
     insts += _file_layer(ctx)
     insts += _stale_locals(ctx)
+    insts += _positional_keys(ctx)
+    insts += _signature_args(ctx)
     insts += _templates(ctx)
     return insts
 
@@ -608,6 +610,90 @@ def _extensions(ctx) -> list[Inst]:
                               'ok' if ok else 'violation',
                               msg='' if ok else f'.{ext} dispatches to {sorted(calls)}',
                               file=lf.module.relpath, line=lf.node.lineno, props=props))
+    return insts
+
+
+# ------------------------------------------------------------------------------------------------
+def _positional_keys(ctx) -> list[Inst]:
+    """(x) a reader never picks a key of a serialised mapping by POSITION (`list(d.keys())[0]`, `list(d)[0]`,
+    `next(iter(d))`, `d.popitem()`): the YAML writer sorts keys and the entry may carry sibling keys (an
+    association entry holds its type AND optionally 'extras'), so the first key is not a fixed one."""
+    prog = ctx.prog
+    insts = []
+    readers = [('Model._from_dict', ('C07',)), ('AttackGraph._from_dict', ('C10',)),
+               ('load_model_from_version_0_0_39._process_model', ('C18',))]
+    for fname, props in readers:
+        if not prog.has_func(fname):
+            continue
+        f = prog.func(fname)
+        rel = f.module.relpath
+        bad = []
+        for n in own_nodes(f.node):
+            # list(X.keys())[0] / list(X)[0]
+            if isinstance(n, ast.Subscript) and isinstance(n.slice, ast.Constant) and n.slice.value in (0, -1) \
+                    and isinstance(n.value, ast.Call) and isinstance(n.value.func, ast.Name) \
+                    and n.value.func.id in ('list', 'tuple', 'sorted') and n.value.args:
+                a = n.value.args[0]
+                if (isinstance(a, ast.Call) and isinstance(a.func, ast.Attribute) and a.func.attr in ('keys', 'items')) \
+                        or isinstance(a, ast.Name):
+                    if n.value.func.id != 'sorted':
+                        bad.append(n)
+            # next(iter(X))
+            if isinstance(n, ast.Call) and isinstance(n.func, ast.Name) and n.func.id == 'next' and n.args \
+                    and isinstance(n.args[0], ast.Call) and isinstance(n.args[0].func, ast.Name) \
+                    and n.args[0].func.id == 'iter':
+                bad.append(n)
+            if isinstance(n, ast.Call) and isinstance(n.func, ast.Attribute) and n.func.attr == 'popitem':
+                bad.append(n)
+        construct = f'(x) {fname} selects no key of the input by position'
+        if bad:
+            insts.append(Inst(
+                RULE, fname, construct, 'violation',
+                msg=(f"'{stmt_text(bad[0], 60)}' takes whichever key comes first: an entry that also holds 'extras' "
+                     f"(or any sibling key) is read wrongly as soon as the file lists that key first - the YAML writer "
+                     f"sorts keys, so a type name sorting after the sibling key breaks loading"),
+                file=rel, line=bad[0].lineno, props=props))
+        else:
+            insts.append(Inst(RULE, fname, construct, 'ok', file=rel, line=f.node.lineno, props=props))
+    return insts
+
+
+def _signature_args(ctx) -> list[Inst]:
+    """(vii-b) get_association_by_signature is asked with the end types the language association DECLARES
+    (<assoc>.left_field.asset.name / <assoc>.right_field.asset.name): that is what the sub-entry names are generated
+    from.  The types of the instances (asset.type) are sub-types in general and name no sub-entry."""
+    prog = ctx.prog
+    insts = []
+    for f in prog.all_funcs():
+        if f.module.generated:
+            continue
+        rel = f.module.relpath
+        for n in own_nodes(f.node):
+            if not (isinstance(n, ast.Call) and isinstance(n.func, ast.Attribute)
+                    and n.func.attr == 'get_association_by_signature' and len(n.args) == 3):
+                continue
+            props = tuple(dict.fromkeys(('C18', 'C19', 'C06') ))
+            if 'neo4j' in rel:
+                props = ('C19', 'C06')
+            elif 'securicad' in rel:
+                props = ('C18', 'C06')
+            construct = f'(vii) sub-entry requested with the declared end types: {stmt_text(n, 60)}'
+            texts = [stmt_text(a) for a in n.args[1:]]
+            declared = all(t.endswith('_field.asset.name') for t in texts) and \
+                {('left' in t) for t in texts} == {True, False}
+            instance = any(t.endswith('.type') for t in texts)
+            if declared:
+                insts.append(Inst(RULE, f.short, construct, 'ok', file=rel, line=n.lineno, props=props))
+            elif instance:
+                insts.append(Inst(
+                    RULE, f.short, construct, 'violation',
+                    msg=(f"the sub-entry name is requested with {texts}: the types of the linked assets. Sub-entries of "
+                         f"same-named associations are generated from the types the association declares; for an asset "
+                         f"of a sub-type the lookup raises although the native model accepts the link"),
+                    file=rel, line=n.lineno, props=props))
+            else:
+                insts.append(Inst(RULE, f.short, construct, 'unproven', msg=f'arguments {texts}', file=rel,
+                                  line=n.lineno, props=props))
     return insts
 
 
